@@ -103,3 +103,16 @@ Proof.
 Qed.
 Print Assumptions C01_base_states_all_read_the_base.
 
+(* ... and the state override is read exactly in the nine states whose Go clause mentions it (Proofs/OverrideTie.v) *)
+From Verif Require Import Proofs.OverrideTie.
+
+Theorem C01_override_read_only_where_go_reads_it : forall idna_raw c inp base ov1 ov2 m,
+  ~ In (m_state m) go_override_states -> step idna_raw c inp base ov1 m = step idna_raw c inp base ov2 m.
+Proof. exact override_read_only_where_go_reads_it. Qed.
+Print Assumptions C01_override_read_only_where_go_reads_it.
+
+Theorem C01_every_go_override_state_reads_it : forall s, In s go_override_states ->
+  exists idna_raw c inp base ov1 ov2 m, m_state m = s /\ step idna_raw c inp base ov1 m <> step idna_raw c inp base ov2 m.
+Proof. exact every_go_override_state_reads_it. Qed.
+Print Assumptions C01_every_go_override_state_reads_it.
+
